@@ -583,7 +583,18 @@ def check_who_may_store(ctx):
     n = 0
     allowed_funcs = set(OWNERS) | {f"{EM}.EmulsionTimeCourse.__init__", f"{EM}.EmulsionTimeCourse.clear", f"{TR}.DropletTrack.__init__",
                                    "droplets.trackers.LengthScaleTracker.__init__", "droplets.trackers.LengthScaleTracker.handle"}
+    # private helpers that no code refers to any more have been inlined at their (only) call sites by the normaliser: their
+    # statements are judged there, as part of the calling owner method
+    referenced = set()
+    for mod in m.modules.values():
+        for x in ast.walk(mod.tree):
+            if isinstance(x, ast.Attribute):
+                referenced.add(x.attr)
+            elif isinstance(x, ast.Name):
+                referenced.add(x.id)
     for fi in m.all_functions():
+        if fi.name.startswith("_") and not fi.name.startswith("__") and fi.name not in referenced:
+            continue
         for s in ast.walk(fi.node):
             if isinstance(s, ast.Call) and isinstance(s.func, ast.Attribute) and s.func.attr in MUTATORS and isinstance(s.func.value, ast.Attribute) and s.func.value.attr in BACKING:
                 n += 1
